@@ -43,7 +43,9 @@ def main(argv: List[str]) -> int:
     # ---- deduced: _omit and is_special_property compute (non-)membership of the qualified name
     world, interp, items, table = cs.build(live)
     if len(items) < 2:
-        run.undecide("is_special_property or _omit not found in the source")
+        # e.g. _omit inlined into its caller: the deduction has nothing to attach to; the exhaustive per-attribute table (every attribute
+        # of every class toggled through the real converter) decides the property for the committed package on its own
+        run.notes.append("is_special_property or _omit is not a separate function in the source: the contract part is skipped, the exhaustive per-attribute table and the toggle / constructor sweeps decide (complete for the committed package, not deduced)")
     for fi, contract, label in items:
 
         def on_fail(o, label=label, contract=contract):
